@@ -376,6 +376,7 @@ fn op_http_error(case: &Value) -> Value {
     let rid = case["request_id"].as_str().unwrap_or("rid").to_string();
     let headers: Vec<(String, String)> = case["headers"].as_array().cloned().unwrap_or_default().iter()
         .map(|p| (p[0].as_str().unwrap().to_string(), p[1].as_str().unwrap().to_string())).collect();
+    let hows: Vec<String> = case["headers"].as_array().cloned().unwrap_or_default().iter().map(|p| p[2].as_str().unwrap_or("add").to_string()).collect();
     let r = crate::quiet(move || {
         let cs = || ClientErrorStatusCode::from_u16(status).expect("4xx");
         let mut e = match ctor.as_str() {
@@ -386,8 +387,12 @@ fn op_http_error(case: &Value) -> Value {
             "for_client_error_with_status" => HttpError::for_client_error_with_status(code, cs()),
             _ => HttpError::for_not_found(code, internal),
         };
-        for (n, v) in &headers {
-            e.add_header(n.as_str(), v.as_str()).expect("header");
+        for (i, (n, v)) in headers.iter().enumerate() {
+            if hows.get(i).map(|h| h == "with").unwrap_or(false) {
+                e = e.with_header(n.as_str(), v.as_str()).expect("header");
+            } else {
+                e.add_header(n.as_str(), v.as_str()).expect("header");
+            }
         }
         e.into_response(&rid)
     });
@@ -979,7 +984,16 @@ fn op_ws_handshake(case: &Value) -> Value {
     add("Connection", &h["connection"]);
     add("Upgrade", &h["upgrade"]);
     add("Sec-WebSocket-Version", &h["version"]);
-    add("Sec-WebSocket-Key", &h["key"]);
+    // the key either as text or as raw octets (any octets that are legal in a header value)
+    let key_bytes: Option<Vec<u8>> = match &h["key_bytes"] {
+        Value::Array(a) => Some(a.iter().map(|x| x.as_u64().unwrap() as u8).collect()),
+        _ => h["key"].as_str().map(|k| k.as_bytes().to_vec()),
+    };
+    if let Some(k) = &key_bytes {
+        rq.extend_from_slice(b"Sec-WebSocket-Key: ");
+        rq.extend_from_slice(k);
+        rq.extend_from_slice(b"\r\n");
+    }
     rq.extend_from_slice(b"\r\n");
     let mut api = ApiDescription::new();
     api.register(ws_channel).unwrap();
@@ -987,9 +1001,9 @@ fn op_ws_handshake(case: &Value) -> Value {
     match resp.into_iter().next().flatten() {
         None => json!({"status": 0}),
         Some(r) => {
-            let want = h["key"].as_str().map(|k| {
+            let want = key_bytes.as_ref().map(|k| {
                 let mut s = sha1::Sha1::default();
-                s.update(k.as_bytes());
+                s.update(k);
                 s.update(b"258EAFA5-E914-47DA-95CA-C5AB0DC85B11");
                 base64::engine::general_purpose::STANDARD.encode(s.finalize())
             });
